@@ -80,10 +80,17 @@ impl VxSlotRef {
 }
 #[verifier::external_body] pub struct VxPersist { _p: u8 }
 impl VxPersist {
+    // ghost: the high-water mark the store holds (what a restarted signer will see), R10-style
+    pub uninterp spec fn persisted_hwm(&self) -> u64;
     #[verifier::external_body]
-    pub fn update_node(&self, id: &PublicKey, st: &NodeState) -> Result<(), PersistError> { unimplemented!() }
+    pub fn update_node(&mut self, id: &PublicKey, st: &NodeState) -> (r: Result<(), PersistError>)
+        ensures r.is_ok() ==> final(self).persisted_hwm() == st.dbid_high_water_mark,
+                r.is_err() ==> final(self).persisted_hwm() == old(self).persisted_hwm(),
+    { unimplemented!() }
     #[verifier::external_body]
-    pub fn delete_channel(&self, id: &PublicKey, cid: &ChannelId) -> Result<(), PersistError> { unimplemented!() }
+    pub fn delete_channel(&mut self, id: &PublicKey, cid: &ChannelId) -> (r: Result<(), PersistError>)
+        ensures final(self).persisted_hwm() == old(self).persisted_hwm(),
+    { unimplemented!() }
 }
 
 //@type vls-core/src/node.rs :: NodeState
@@ -110,9 +117,12 @@ impl Node {
         final(self).state.val.dbid_high_water_mark == old(self).state.val.dbid_high_water_mark,
 //@end
 
-//@fn vls-core/src/node.rs :: impl Node :: forget_channel props=C15
+//@fn vls-core/src/node.rs :: impl Node :: forget_channel props=C15,C11
 //@sigsub /&self/ => &mut self
+    requires old(self).persister.persisted_hwm() == old(self).state.val.dbid_high_water_mark,    // the store is in sync between requests
     ensures
+        // ... also after a restart: the store holds the raised mark when the request returns (C11 for the mark)
+        final(self).persister.persisted_hwm() == final(self).state.val.dbid_high_water_mark,             //[C15.forget.mark-durable] [C11.forget.mark-durable]
         // forgetting a known channel raises the mark to at least its id; the mark never decreases
         final(self).state.val.dbid_high_water_mark >= old(self).state.val.dbid_high_water_mark,          //[C15.forget.mark-monotone]
         r.is_ok() && old(self).channels.val@.dom().contains(*channel_id) ==>
